@@ -265,10 +265,15 @@ def run(ctx):
     # ------------------------------------------------------------------ flips
     ctx.rule("flips")
     for name, perm in (("flip_ranks", lambda i: i ^ 56), ("flip_files", lambda i: i ^ 7)):
-        b, ps = paths(f, BBT + "::" + name)
+        b = f.need(BBT + "::" + name)
+        # a loop over the eight ranks or files has constant bounds: it is executed iteration by iteration
+        ps = sym.SymExec(f, b, raw=True, opaque=raw_opaque, max_depth=6, unroll=16).run()
+        got = [None]
         try:
+            if len(ps) != 1 or ps[0].ret is None:
+                raise CannotBit("%d paths, ends %s (one returning path expected: the flip of a word does not depend on its value)" % (len(ps), [p_.end for p_ in ps][:3]))
             got = BitEval({SELF0: A}).vec(raw_of(ps[0].ret))
-            bad = [i for i in range(64) if got[i] != A[perm(i)]]
+            bad = [i for i in range(64) if i >= len(got) or got[i] != A[perm(i)]]
         except CannotBit as e:
             bad = [str(e)]
         ctx.check(len(ps) == 1 and not bad, "flip:%s" % name, "%s does not move every bit to its mirrored square (positions %s)" % (name, bad[:5]), loc(b),
